@@ -37,48 +37,44 @@ def encode (p : List Nat) : List Nat := cEND :: (p.flatMap stuff ++ [cEND])
 def unesc (c : Nat) : Nat :=
   if c = cESC_END then cEND else if c = cESC_ESC then cESC else c
 
-/-- `ReadPacket` loop; `acc` = `buf` so far.  Result: (payload, complete, remaining stream). -/
-def readGo : List Nat → List Nat → List Nat × Bool × List Nat
-  | [], acc => (acc, false, [])
-  | b :: rest, acc =>
+/-- `ReadPacket` loop; `acc` = `buf` so far; `esc = true` when the previous byte was an ESC (the
+Go code is then at its second `Read`, inside `case ESC`).
+Result: (payload, complete, remaining stream). -/
+def readGo : List Nat → List Nat → Bool → List Nat × Bool × List Nat
+  | [], acc, _ => (acc, false, [])
+  | c :: rest, acc, true => readGo rest (acc ++ [unesc c]) false
+  | b :: rest, acc, false =>
     if b = cEND then
-      if acc ≠ [] then (acc, true, rest) else readGo rest acc
-    else if b = cESC then
-      match rest with
-      | [] => (acc, false, [])
-      | c :: rest' => readGo rest' (acc ++ [unesc c])
-    else readGo rest (acc ++ [b])
+      if acc ≠ [] then (acc, true, rest) else readGo rest acc false
+    else if b = cESC then readGo rest acc true
+    else readGo rest (acc ++ [b]) false
 
-def readPacket (s : List Nat) : List Nat × Bool × List Nat := readGo s []
+def readPacket (s : List Nat) : List Nat × Bool × List Nat := readGo s [] false
 
-theorem readGo_rest_lt : ∀ (s acc : List Nat) {p r : List Nat},
-    readGo s acc = (p, true, r) → r.length < s.length
-  | [], acc, p, r, h => by simp [readGo] at h
-  | [b], acc, p, r, h => by
-    unfold readGo at h
+theorem readGo_rest_lt : ∀ (s acc : List Nat) (e : Bool) {p r : List Nat},
+    readGo s acc e = (p, true, r) → r.length < s.length
+  | [], acc, e, p, r, h => by simp [readGo] at h
+  | c :: rest, acc, true, p, r, h => by
+    rw [readGo] at h
+    have := readGo_rest_lt rest _ false h
+    simp; omega
+  | b :: rest, acc, false, p, r, h => by
+    rw [readGo] at h
     by_cases h1 : b = cEND
     · by_cases h2 : acc ≠ []
-      · simp [h1, h2] at h; simp [← h.2]
-      · simp [h1, h2, readGo] at h
-    · by_cases h3 : b = cESC
-      · simp [h1, h3] at h
-        simp [← h3, h1] at h
-      · simp [h1, h3, readGo] at h
-  | b :: c :: rest', acc, p, r, h => by
-    unfold readGo at h
-    by_cases h1 : b = cEND
-    · by_cases h2 : acc ≠ []
-      · simp [h1, h2] at h; simp [← h.2]
-      · simp only [h1, if_true, h2, if_false] at h
-        have := readGo_rest_lt (c :: rest') acc h
-        simp at this ⊢; omega
-    · by_cases h3 : b = cESC
-      · simp only [h1, if_false, h3, if_true] at h
-        have := readGo_rest_lt rest' _ h
+      · rw [if_pos h1, if_pos h2] at h
+        simp only [Prod.mk.injEq, true_and] at h
+        simp [← h.2]
+      · rw [if_pos h1, if_neg h2] at h
+        have := readGo_rest_lt rest acc false h
         simp; omega
-      · simp only [h1, if_false, h3] at h
-        have := readGo_rest_lt (c :: rest') _ h
-        simp at this ⊢; omega
+    · by_cases h3 : b = cESC
+      · rw [if_neg h1, if_pos h3] at h
+        have := readGo_rest_lt rest _ true h
+        simp; omega
+      · rw [if_neg h1, if_neg h3] at h
+        have := readGo_rest_lt rest _ false h
+        simp; omega
 
 /-- call `ReadPacket` until it reports an incomplete packet (EOF); result: the complete packets
 and the bytes of the trailing incomplete one -/
@@ -87,50 +83,44 @@ def readAll (s : List Nat) : List (List Nat) × List Nat :=
   | (p, true, r) => let (ps, t) := readAll r; (p :: ps, t)
   | (p, false, _) => ([], p)
 termination_by s.length
-decreasing_by exact readGo_rest_lt s [] h
+decreasing_by exact readGo_rest_lt s [] false h
 
 /-! ## the same reader over a chunked transport (1-byte reads) -/
 
-def readGoC (s : Buffered) (acc : List Nat) : List Nat × Bool × Buffered :=
+def readGoC (s : Buffered) (acc : List Nat) (esc : Bool) : List Nat × Bool × Buffered :=
   match _h : s.next 1 with
   | none => (acc, false, s)
   | some (b, s1) =>
-    if b = cEND then
-      if acc ≠ [] then (acc, true, s1) else readGoC s1 acc
-    else if b = cESC then
-      match _h2 : s1.next 1 with
-      | none => (acc, false, s1)
-      | some (c, s2) => readGoC s2 (acc ++ [unesc c])
-    else readGoC s1 (acc ++ [b])
+    if esc then readGoC s1 (acc ++ [unesc b]) false
+    else if b = cEND then
+      if acc ≠ [] then (acc, true, s1) else readGoC s1 acc false
+    else if b = cESC then readGoC s1 acc true
+    else readGoC s1 (acc ++ [b]) false
 termination_by s.flat.length
-decreasing_by
-  · exact Buffered.next_flat_length _h
-  · have := Buffered.next_flat_length _h; have := Buffered.next_flat_length _h2; omega
-  · exact Buffered.next_flat_length _h
+decreasing_by all_goals exact Buffered.next_flat_length _h
 
-def readPacketC (s : Buffered) : List Nat × Bool × Buffered := readGoC s []
+def readPacketC (s : Buffered) : List Nat × Bool × Buffered := readGoC s [] false
 
-theorem readGoC_rest_lt (s : Buffered) (acc : List Nat) {p : List Nat} {r : Buffered}
-    (h : readGoC s acc = (p, true, r)) : r.flat.length < s.flat.length := by
+theorem readGoC_rest_lt (s : Buffered) (acc : List Nat) (e : Bool) {p : List Nat} {r : Buffered}
+    (h : readGoC s acc e = (p, true, r)) : r.flat.length < s.flat.length := by
   revert h
-  fun_induction readGoC s acc <;> intro h
+  fun_induction readGoC s acc e <;> intro h
   case case1 => simp at h
-  case case2 hn =>
+  case case3 =>
+    have hlt := Buffered.next_flat_length ‹Buffered.next 1 _ = some (_, _)›
     simp only [Prod.mk.injEq, true_and] at h
-    rw [← h.2]; exact Buffered.next_flat_length hn
-  case case3 hn ih => have := Buffered.next_flat_length hn; have := ih h; omega
-  case case4 => simp at h
-  case case5 hn2 hn _ ih =>
-    have := Buffered.next_flat_length hn; have := Buffered.next_flat_length hn2
+    rw [← h.2]; exact hlt
+  all_goals
+    rename_i ih
+    have hlt := Buffered.next_flat_length ‹Buffered.next 1 _ = some (_, _)›
     have := ih h; omega
-  case case6 hn _ _ ih => have := Buffered.next_flat_length hn; have := ih h; omega
 
 def readAllC (s : Buffered) : List (List Nat) × List Nat :=
   match h : readPacketC s with
   | (p, true, r) => let (ps, t) := readAllC r; (p :: ps, t)
   | (p, false, _) => ([], p)
 termination_by s.flat.length
-decreasing_by exact readGoC_rest_lt s [] h
+decreasing_by exact readGoC_rest_lt s [] false h
 
 /-! ## FCS-16 (fcs.go) -/
 
@@ -194,7 +184,7 @@ def muxRead (s : List Nat) : Option (List Nat × Nat × List Nat) :=
     | some (p, ft) => some (p, ft, rest)
     | none => muxRead rest
 termination_by s.length
-decreasing_by exact readGo_rest_lt s [] h
+decreasing_by exact readGo_rest_lt s [] false h
 
 theorem muxRead_rest_lt (s : List Nat) {p : List Nat} {ft : Nat} {r : List Nat}
     (h : muxRead s = some (p, ft, r)) : r.length < s.length := by
@@ -203,9 +193,9 @@ theorem muxRead_rest_lt (s : List Nat) {p : List Nat} {ft : Nat} {r : List Nat}
   case case1 => simp at h
   case case2 hr _ _ hacc =>
     simp only [Option.some.injEq, Prod.mk.injEq] at h
-    rw [← h.2.2]; exact readGo_rest_lt _ [] hr
+    rw [← h.2.2]; exact readGo_rest_lt _ [] false hr
   case case3 hr _ ih =>
-    have := readGo_rest_lt _ [] hr; have := ih h; omega
+    have := readGo_rest_lt _ [] false hr; have := ih h; omega
 
 /-- every packet the mux reader delivers until the stream is exhausted -/
 def muxReadAll (s : List Nat) : List (Nat × List Nat) :=
@@ -214,5 +204,49 @@ def muxReadAll (s : List Nat) : List (Nat × List Nat) :=
   | some (p, ft, rest) => (ft, p) :: muxReadAll rest
 termination_by s.length
 decreasing_by exact muxRead_rest_lt s h
+
+/-! ### the mux reader over a chunked transport -/
+
+def muxReadC (s : Buffered) : Option (List Nat × Nat × Buffered) :=
+  match h : readPacketC s with
+  | (_, false, _) => none
+  | (res, true, rest) =>
+    match muxAccept res with
+    | some (p, ft) => some (p, ft, rest)
+    | none => muxReadC rest
+termination_by s.flat.length
+decreasing_by exact readGoC_rest_lt s [] false h
+
+theorem muxReadC_rest_lt (s : Buffered) {p : List Nat} {ft : Nat} {r : Buffered}
+    (h : muxReadC s = some (p, ft, r)) : r.flat.length < s.flat.length := by
+  revert h
+  fun_induction muxReadC s <;> intro h
+  case case1 => simp at h
+  case case2 hr _ _ hacc =>
+    simp only [Option.some.injEq, Prod.mk.injEq] at h
+    rw [← h.2.2]; exact readGoC_rest_lt _ [] false hr
+  case case3 hr _ ih =>
+    have := readGoC_rest_lt _ [] false hr; have := ih h; omega
+
+def muxReadAllC (s : Buffered) : List (Nat × List Nat) :=
+  match h : muxReadC s with
+  | none => []
+  | some (p, ft, rest) => (ft, p) :: muxReadAllC rest
+termination_by s.flat.length
+decreasing_by exact muxReadC_rest_lt s h
+
+/-- the frames/payloads for which SLIPMUX is a faithful channel (DESIGN C25): the frame byte is
+not one the reader filters out; an IP frame byte is not prepended by the writer, so it must
+already be the payload's first byte; a CoAP payload has at least 4 bytes (the reader drops
+shorter CoAP packets by design). -/
+structure MuxWF (frame : Nat) (p : List Nat) : Prop where
+  valid : isInvalidFrame frame = false
+  ip : isIp frame = true → ∃ t, p = frame :: t
+  coap : frame = cFRAME_COAP → 4 ≤ p.length
+
+/-- bitwise CRC-16/X-25 (reflected polynomial 0x8408) of one byte: the specification of a table entry -/
+def crcEntry (i : Nat) : Nat :=
+  let stepBit (v : Nat) : Nat := if v % 2 = 1 then (v / 2) ^^^ 0x8408 else v / 2
+  stepBit (stepBit (stepBit (stepBit (stepBit (stepBit (stepBit (stepBit i)))))))
 
 end WaVerif.C25
